@@ -286,6 +286,11 @@ def build_c(unit, units, outdir, defines=()):
         if tx.strip() and tx not in seen_types:
             seen_types.add(tx)
             parts.append('/* model types of %s */\n%s' % (n, tx))
+    for n in allu:
+        for ps in units[n].get('partial_structs', []):
+            fw = 'typedef struct %s %s;' % (ps, ps)
+            if fw not in parts:
+                parts.append(fw)
     parts.append(types.typedefs())
     shim_ghosts = []
     for vn, el in types.vecs.items():
